@@ -1,7 +1,7 @@
 """keep_seed.py <Cnn> <name> <caught_by comma list or '-'> <needs text>  - store a confirmed seeded change under /verif/seeded/<name>/"""
 import json, os, shutil, sys, subprocess
 pid, name, caught, needs = sys.argv[1], sys.argv[2], sys.argv[3], sys.argv[4]
-src = f"/tmp/wt/{pid}/_seeded"
+src = os.environ.get("WT_BASE", "/tmp/wt") + f"/{pid}/_seeded"
 dst = f"/verif/seeded/{name}"
 os.makedirs(dst, exist_ok=True)
 for f in ("patch.diff", "demo.py", "notes.md"):
